@@ -14,9 +14,73 @@ RULE = ("each case runs one seeded script containing rebases (plain / --onto / -
         "was is counted but not non-trivial. distinct = (op sequence, shortcut taken/declined pattern)")
 
 
+def many_paths_rebase(sc):
+    """A rewritten range whose commits carry agent lines in MORE THAN 1000 files (git-ai switches from pathspec arguments to
+    post-filtering there): one agent commit creates 1001-1300 small files and adds lines to a tracked file F; upstream changes F (the
+    precondition fails for the only pair: the shortcut must decline), one of the generated files, or an unrelated file (it holds)."""
+    rng = sc.rng
+    base = sc.current_branch() or "main"
+    feat = sc.new_branch_name("mp")
+    who = rng.choice(sc.sessions)
+    tracked = [f for f in sc.files if f in sc.tracked()]
+    F = rng.choice(tracked)
+    sc.g("checkout", "-q", "-b", feat)
+    n = rng.choice([1001, 1005, 1300])
+    d = rng.choice(["gen", "zz gen", "0gen"])       # sorts after / before the ordinary files
+    names = ["%s/f%04d.txt" % (d, i) for i in range(n)]
+    two = rng.random() < 0.4
+    first = names[:n // 2] if two else names
+    for chunk in ([first, names[n // 2:]] if two else [first]):
+        sc.w.human_ckpt(chunk + [F])
+        for f in chunk:
+            sc.write(f, [sc.fresh(who, hostile=False) for _ in range(2)])
+        lines = sc.read(F)
+        pos = len(lines)                 # at the end: the upstream change goes to the top, far enough not to conflict
+        lines[pos:pos] = sc.new_lines(who, rng.choice([1, 2]), lines)
+        sc.write(F, lines)
+        t = sc.tool.get(who, ("tool", "m"))
+        sc.w.ai_ckpt(who, chunk + [F], messages=sc.transcript(who), tool=t[0], model=t[1])
+        sc.log.append(["edit", "%d files under %s/ and %s" % (len(chunk), d, F), who, "create+ins@%d" % pos])
+        sc.stats["edits"] += 1; sc.stats["ai_edits"] += 1
+        sc.commit_all("agent commit over %d files" % len(chunk))
+    sc.g("checkout", "-q", base)
+    where = rng.choice(["F", "F", "generated", "other"])
+    if where == "F":
+        lines = sc.read(F)
+        lines[0:0] = [sc.fresh("human", hostile=False)]
+        sc.write(F, lines)
+        sc.log.append(["edit", F, "human", "ins@0+1 (upstream)"])
+    elif where == "generated":
+        # upstream creates one of the names first (a person's line); the rebase then conflicts or merges - aborted if it stops
+        sc.write(names[rng.randrange(n)], [sc.fresh("human", hostile=False)])
+    else:
+        sc.write("up%d.txt" % sc.n, [sc.fresh("human", hostile=False) for _ in range(2)])
+    sc.commit_all("upstream change: " + where)
+    sc.g("checkout", "-q", feat)
+    sc.g("rebase", base)
+    sc.ops.append("rebase:many-paths:%s:%d%s" % (where, n, ":two" if two else ""))
+    if sc.in_progress():
+        sc.finish_in_progress("rebase", decide="abort")
+        sc.g("checkout", "-q", "-f", base)
+    else:
+        sc.g("checkout", "-q", base); sc.g("merge", "-q", "--ff-only", feat)
+    sc.blame_files = tracked + rng.sample(names, 6)
+
+
 def script(sc):
     rng = sc.rng
     C.setup_repo(sc, 3, 10)
+    if sc.index % 24 == 5:
+        # scale case (a few per run): the range tracks more than 1000 agent-touched paths
+        sc.commit_all("pre")
+        many_paths_rebase(sc)
+        sc.after_step("many-paths")
+        if sc.viol or sc.inconclusive or sc.in_progress():
+            return
+        sc.commit_all("final")
+        sc.after_step("final")
+        sc.check_blame_tip("final", rule="C15", files=[f for f in sc.blame_files if f in sc.tracked()])
+        return
     for _ in range(rng.choice([1, 2])):
         sc.do_edit()
     sc.commit_all("hist")
